@@ -56,10 +56,18 @@ def job_reads(f, accel, njobs):
         else:
             k, p = f["kernel"], f["pad"]
             up = 2 if f["upscale"] else 1
+            # kernels larger than 8x8 elements are decomposed: a block is computed in several passes, one per sub-kernel, and the first job of an operation
+            # only reads the window of the first sub-kernel (top-left); the later sub-kernel jobs are not modelled individually (H8), so for decomposed
+            # kernels only job 0 is compared (njobs is cut to 1 below)
+            sub_h = min(k["dilated_h"], (max(8 // k["dilation_y"], 1) - 1) * k["dilation_y"] + 1)
+            sub_w = min(k["dilated_w"], (max(8 // k["dilation_x"], 1) - 1) * k["dilation_x"] + 1)
+            decomposed = sub_h < k["dilated_h"] or sub_w < k["dilated_w"]
             ry0 = y0 * k["stride_y"] - p["top"]
-            ry1 = (y1 - 1) * k["stride_y"] - p["top"] + k["dilated_h"]
+            ry1 = (y1 - 1) * k["stride_y"] - p["top"] + sub_h
             rx0 = x0 * k["stride_x"] - p["left"]
-            rx1 = (x1 - 1) * k["stride_x"] - p["left"] + k["dilated_w"]
+            rx1 = (x1 - 1) * k["stride_x"] - p["left"] + sub_w
+            if decomposed:
+                njobs = 1
             # coordinates are in the (up-scaled) input plane; map to stored rows/cols
             box = (max(ry0, 0) // up, min(-(-ry1 // up), ih), max(rx0, 0) // up, min(-(-rx1 // up), iw))
         for zr in (zs or [(z0, z1)]):
